@@ -86,6 +86,16 @@ add('C06', 'exploration',
     'Reference lexer decodes string literals per Lua 5.2 + P8SCII escapes.',
     'DESIGN.md 3/C06')
 
+add('C08', 'exploration',
+    'derivation-bounded exhaustive enumeration of the dialect grammar (grammar as data, adjacency fixpoint, one witness per '
+    'adjacent terminal pair) x deviation-bounded layouts, parsed by the real parser and compared with the derivation\'s '
+    'own skeleton through an AST adapter',
+    'All derivations with <=1 (thorough <=2) deviations per statement kind, all ordered statement-kind pairs x separators, '
+    'nesting to depth 3, a witness for each of the 4322 compile-valid adjacent terminal-class pairs, every layout with one '
+    'deviating gap over 13 separators; end-of-input consumption and tree equality checked on each.',
+    'Ground truth from the derivation (self-checked with the reference lexer); flat expression comparison.',
+    'DESIGN.md 3/C08')
+
 PENDING = {
 }
 
